@@ -3,7 +3,7 @@
 set -e
 D="$1"; OUT="$2"
 HERE="$(cd "$(dirname "$0")" && pwd)"
-cp "$HERE"/util.ml "$HERE"/hand.ml "$HERE"/specrun.ml "$HERE"/main.ml "$D"/
+cp "$HERE"/util.ml "$HERE"/hand_text.ml "$HERE"/hand_iter.ml "$HERE"/hand_misc.ml "$HERE"/hand.ml "$HERE"/specrun.ml "$HERE"/main.ml "$D"/
 cd "$D"
-ocamlfind ocamlopt -O2 -w -a -package zarith -linkpkg jv.mli jv.ml util.ml hand.ml specrun.ml main.ml -o "$OUT" 2>/dev/null || \
-ocamlfind ocamlopt -w -a -package zarith -linkpkg jv.mli jv.ml util.ml hand.ml specrun.ml main.ml -o "$OUT"
+ocamlfind ocamlopt -O2 -w -a -package zarith -linkpkg jv.mli jv.ml util.ml hand_text.ml hand_iter.ml hand_misc.ml hand.ml specrun.ml main.ml -o "$OUT" 2>/dev/null || \
+ocamlfind ocamlopt -w -a -package zarith -linkpkg jv.mli jv.ml util.ml hand_text.ml hand_iter.ml hand_misc.ml hand.ml specrun.ml main.ml -o "$OUT"
